@@ -469,6 +469,11 @@ class Program:
             return [f for q, f in self.functions.items() if q not in hidden]
         return list(self.functions.values())
 
+    def every_function(self) -> List[FuncInfo]:
+        """all functions, helpers that are analysed only spliced into their callers included (for scans of the syntax tree: the
+        flow graphs of the callers show the helpers' steps, the callers' own syntax does not)"""
+        return list(self.functions.values())
+
     def enclosing_class(self, f: FuncInfo) -> Optional[ClassInfo]:
         while f is not None:
             if f.cls is not None:
